@@ -34,7 +34,7 @@
 	g_num_slen = slen
 #ifdef VERIF_NATIVE
 /* natively libc does the conversion; the ghosts are recomputed by the executable model on the same string */
-#define PN_NATIVE_GHOSTS(str, base) num_scan(str, base)
+#define PN_NATIVE_GHOSTS(str, base) do { num_scan(str, base); g_num_calls++; g_num_sptr = (str); g_num_reqbase = (base); } while (0)
 #else
 #define PN_NATIVE_GHOSTS(str, base) do {} while (0)
 #endif
